@@ -1,6 +1,7 @@
 import TeaalVerif.Driver.Util
 import TeaalVerif.Driver.C10
 import TeaalVerif.FT.Ops
+import TeaalVerif.Props.C03
 open Lean
 namespace Driver
 open FT
@@ -35,7 +36,7 @@ def ftFiber (j : Json) : Except String Json := do
   let cs ← natList (← fld j "coords")
   let n ← natOf (← fld j "n")
   let bs ← natList (← fld j "bounds")
-  return Json.mkObj [("chunk_keys", Json.arr ((chunkKeys n cs).map fun (x : Nat) => (x : Json)).toArray),
+  return Json.mkObj [("chunk_keys", Json.arr ((C03.leaderKeys n cs).map fun (x : Nat) => (x : Json)).toArray),
     ("groups", Json.arr (cs.map fun c => match groupOf bs c with | some g => (g : Json) | none => Json.null).toArray)]
 
 end Driver
